@@ -1,6 +1,7 @@
 import FrappyProofs.Lemmas.Activate
 import FrappyProofs.Lemmas.ActivateSnap
 import FrappyProofs.Lemmas.ActivateLoss
+import FrappyModel.Generated.C08
 /-
 C08 — property theorems (nothing but property theorems and their non-vacuity examples).
 
@@ -56,6 +57,15 @@ inside the region the lock guards. -/
 theorem locks_exclusive (cfg : Cfg) (hs : Conn → List Req) (us : Nat → List (Mod × Par × Entry))
     (cache : Mod → Par → Entry) (σ : State) (h : Reach cfg (init hs us cache) σ) : LockInv σ :=
   lockInv_reach cfg hs us cache σ h
+
+/-- Table fact the harness relies on to tell updates from replies in a connection's log: the reply names of
+`activate`, `deactivate`, `*IDN?` (regenerated from `frappy.protocol.messages` on every run) are distinct,
+none of them is the update message name, and none starts with the error prefix. -/
+theorem reply_names_distinct :
+    (Generated.C08.requestReply.map (·.2)).Nodup ∧
+    Generated.C08.eventReply ∉ Generated.C08.requestReply.map (·.2) ∧
+    (Generated.C08.requestReply.all (fun x => !x.2.startsWith Generated.C08.errorPrefix)) = true := by
+  decide +kernel
 
 /-! ### non-vacuity: a concrete interleaving (one connection, one updater, the F16 schedule) -/
 
